@@ -712,6 +712,16 @@ fn main() {
                 let mut sys = Sys::new(fl, imp, min_temp, base);
                 t.reset(sys.reset_event());
                 let mut xid: u32 = 1_000_000 + r.gen_range(0..1000);
+                // long enumerations: one enumerable run in three starts with 40..90 tokens spread over two owners, so that
+                // the swap-and-pop bookkeeping of the random calls that follow works on long lists
+                if fl == "enumerable" && base == 0 && (run / 5) % 3 == 1 {
+                    for k in 0..r.gen_range(40..90) {
+                        let to = if k % 3 == 0 { "b" } else { "a" };
+                        let op = json!({"op": "mint_seq", "sp": "none", "from": "none", "to": to, "id": 0, "n": 0, "until": 0, "auth": [], "dt": 0});
+                        let ev = sys.step(&op);
+                        t.step(ev);
+                    }
+                }
                 let lapse_at = if r.gen_ratio(1, 3) { r.gen_range(2..12) } else { usize::MAX };
                 let mut script: Vec<Value> = vec![];
                 for k in 0..len {
